@@ -3897,3 +3897,76 @@ mod tests {
         );
     }
 }
+
+// Verification hook (C11). Add-only and behaviour neutral; only compiled with `verif-hooks`.
+#[cfg(feature = "verif-hooks")]
+#[allow(clippy::items_after_test_module)]
+impl Entry<EntryIncremental, EntryNew> {
+    /// Run the real `merge_state` on two live entries that carry the single attribute `attr`:
+    /// `left` is the incoming (replicated) entry, `right` the entry in the database. Returns
+    /// the change id recorded for `attr` in the merged change state and the merged valueset.
+    pub fn verif_merge_attr(
+        attr: &Attribute,
+        left: (&Cid, &ValueSet),
+        right: (&Cid, &ValueSet),
+        schema: &dyn SchemaTransaction,
+        trim_cid: &Cid,
+    ) -> (Option<Cid>, Option<ValueSet>) {
+        use crate::repl::entry::State;
+        let uuid = Uuid::from_u128(0xc11);
+        let at = Cid {
+            ts: Duration::from_secs(0),
+            s_uuid: Uuid::from_u128(0),
+        };
+        let mk_state = |cid: &Cid| {
+            let mut changes = BTreeMap::default();
+            changes.insert(attr.clone(), cid.clone());
+            EntryChangeState::build(State::Live {
+                at: at.clone(),
+                changes,
+            })
+        };
+        let mut attrs_left = Eattrs::default();
+        attrs_left.insert(attr.clone(), left.1.clone());
+        let mut attrs_right = Eattrs::default();
+        attrs_right.insert(attr.clone(), right.1.clone());
+        let incoming: EntryIncrementalNew = Entry {
+            valid: EntryIncremental {
+                uuid,
+                ecstate: mk_state(left.0),
+            },
+            state: EntryNew,
+            attrs: attrs_left,
+        };
+        let db_ent: EntrySealedCommitted = Entry {
+            valid: EntrySealed {
+                uuid,
+                ecstate: mk_state(right.0),
+            },
+            state: EntryCommitted { id: 1 },
+            attrs: attrs_right,
+        };
+        let merged = incoming.merge_state(&db_ent, schema, trim_cid);
+        let cid = match merged.valid.ecstate.current() {
+            State::Live { at: _, changes } => changes.get(attr).cloned(),
+            State::Tombstone { .. } => None,
+        };
+        (cid, merged.attrs.get(attr).cloned())
+    }
+}
+
+// Verification hook (C12). Add-only and behaviour neutral; only compiled with `verif-hooks`.
+#[cfg(feature = "verif-hooks")]
+#[allow(clippy::items_after_test_module)]
+impl Entry<EntrySealed, EntryCommitted> {
+    /// Assemble a sealed, committed entry from explicit parts (uuid, change state,
+    /// attribute map, database id) without passing through schema validation, so that the
+    /// storage / replication encodings can be exercised on arbitrary attribute maps.
+    pub fn verif_c12_build(uuid: Uuid, ecstate: EntryChangeState, attrs: Eattrs, id: u64) -> Self {
+        Entry {
+            valid: EntrySealed { uuid, ecstate },
+            state: EntryCommitted { id },
+            attrs,
+        }
+    }
+}
